@@ -20,8 +20,8 @@ EXTENDS WSReader, Json
 
 CONSTANTS Cfgs, Streams(_), Cuts(_), Progs(_)
 
-VARIABLES prog, pc, hist, cut
-mvars == << cfg, fr, s, prog, pc, hist, cut >>
+VARIABLES prog, pc, hist, cut, stream
+mvars == << cfg, fr, s, prog, pc, hist, cut, stream >>
 
 (* Constructors for abstract frames (mk follows the reader's role). *)
 Fr(c, op, fin, len) ==
@@ -76,7 +76,7 @@ Init ==
        /\ cut \in Cuts(st)
        /\ fr = [i \in 1..Len(st) |-> Annotate(st[i], i, cut, \E j \in 1..(i - 1) : st[j].lk # "n")]
        /\ prog \in Progs(st)
-       /\ PrintT(<< "PROG", ToJson(Program(cfg, st, cut, prog)) >>)
+       /\ stream = st
   /\ s = S0 /\ pc = 1 /\ hist = << >>
 
 CanonErr(w) ==
@@ -131,10 +131,15 @@ Step ==
        [] o.op = "RL" -> DoRA(s, hist, "RA")
        [] o.op = "RM" -> DoRM
   /\ pc' = pc + 1
-  /\ UNCHANGED << cfg, fr, prog, cut >>
+  /\ UNCHANGED << cfg, fr, prog, cut, stream >>
 
 Next == Step
 Spec == Init /\ [][Next]_mvars
+
+(* Printed once per initial state (= per abstract program); a CONSTRAINT so *)
+(* that error-trace reconstruction does not print again.                    *)
+Emit == pc = 1 => PrintT(<< "PROG", ToJson([role |-> cfg.role, pmce |-> cfg.pmce, limit |-> cfg.limit, hmode |-> cfg.hmode,
+                                            herrAt |-> cfg.herrAt, frames |-> stream, cut |-> cut, reads |-> prog]) >>)
 
 -----------------------------------------------------------------------------
 (* Independent characterisations used by the invariants.                   *)
